@@ -317,6 +317,23 @@ def oblige(eng, st: State, goal, name: str, kind="property", tags=None, detail="
         status, model, backend, ms, det = "discharged", None, "z3", 0.0, "trivial"
     else:
         status, model, backend, ms, det = smt.prove(list(st.pc) + extra, goal, timeout_ms=CTX.timeout_ms, both=CTX.both)
+    if status == "refuted" and eng.spec_funcs and not getattr(CTX, "no_auto_unfold", False):
+        # A counter-model may only exploit that a recursive spec function is uninterpreted where no hint unfolded it.  Before such a
+        # refutation is believed, the definitions of the spec applications that occur in the query are instantiated automatically
+        # (a few rounds); adding true definitional instances is sound, so `unsat` now is a proof and `sat` again a better candidate.
+        try:
+            pc2 = _auto_unfold(eng, st, goal, rounds=3)
+            if pc2 is not None:
+                st2, m2, b2, ms2, det2 = smt.prove(pc2 + bit_axioms(pc2 + [goal]), goal, timeout_ms=CTX.timeout_ms, both=False)
+                ms += ms2
+                if st2 == "discharged":
+                    status, model, backend, det = "discharged", None, b2, "after automatic unfolding of the spec functions in the query"
+                elif st2 == "refuted":
+                    model = m2
+                else:
+                    status, model, det = "unknown", None, "refuted before, undecided after automatic unfolding of the spec functions: " + det2
+        except Unsupported:
+            pass
     if status == "unknown" and os.environ.get("PYVC_DUMP"):
         # development aid: the undecided query as SMT-LIB text
         sv = z3.Solver()
@@ -337,6 +354,49 @@ def oblige(eng, st: State, goal, name: str, kind="property", tags=None, detail="
         )
         eng.obligations.append(ob)
     return status
+
+
+def _auto_unfold(eng, st, goal, rounds=3, cap=60):
+    """Path condition extended with the definitional instances of the spec-function applications occurring in it and in the goal."""
+    from .builtins import decode_elem
+    by_decl = {}
+    for sp in eng.spec_funcs.values():
+        if sp.fdecl is not None:
+            by_decl[sp.fdecl.name()] = sp
+    if not by_decl:
+        return None
+    scratch = st.clone()
+    scratch.pc = list(st.pc)
+    done = set()
+    total = 0
+    for _ in range(rounds):
+        apps = []
+        seen = set()
+
+        def walk(e):
+            if e.get_id() in seen:
+                return
+            seen.add(e.get_id())
+            if z3.is_app(e):
+                if e.decl().name() in by_decl and e.get_id() not in done and all(not z3.is_var(a) for a in e.children()):
+                    apps.append(e)
+                for ch in e.children():
+                    walk(ch)
+            elif z3.is_quantifier(e):
+                return
+        for c in list(scratch.pc) + [goal]:
+            walk(c)
+        if not apps:
+            break
+        for e in apps[:cap]:
+            done.add(e.get_id())
+            sp = by_decl[e.decl().name()]
+            args = [decode_elem(eng, scratch, e.arg(i), ty) for i, (_, ty) in enumerate(sp.params)]
+            unfold_spec(eng, scratch, sp, args)
+            total += 1
+        if total >= cap:
+            break
+    return scratch.pc if total else None
 
 
 def model_inputs(eng, model):
@@ -581,7 +641,17 @@ def loop_key(eng, st: State, n):
         return None
     loops = [x for x in ast.walk(fn) if isinstance(x, (ast.While, ast.For, ast.AsyncFor))]
     loops.sort(key=lambda x: (x.lineno, x.col_offset))
-    return f"loop#{loops.index(n) + 1}" if n in loops else None
+    if n not in loops:
+        return None
+    key = f"loop#{loops.index(n) + 1}"
+    # a loop of an inlined callee is not "loop#k" of the function under contract: its key carries the callee's name, so that the
+    # contract's loop specifications (written for its own function) are never applied to somebody else's loop
+    c = eng.active_contract
+    fname = getattr(fn, "name", None)
+    own = c.target.split(".")[-1] if c is not None else None
+    if c is not None and fname is not None and own is not None and fname != own:
+        return f"{fname}.{key}"
+    return key
 
 
 def assigned_names(body):
